@@ -502,7 +502,7 @@ func init() {
 			ops := bmx.RandPolicyOps(c.r)
 			ops2 := bmx.PermuteHistory(c.r, ops)
 			// interleaved construction of two policies and a shipped one in between
-			pa, pb := bluemonday.NewPolicy(), bluemonday.NewPolicy()
+			pa, pb := bmx.NewBase(ops), bmx.NewBase(ops2)
 			ia, ib := 0, 0
 			for ia < len(ops) || ib < len(ops2) {
 				if ia < len(ops) && (ib >= len(ops2) || c.r.Intn(2) == 0) {
@@ -546,6 +546,10 @@ func init() {
 			directedC03(c)
 		case "C07":
 			directedC07(c)
+		case "C02":
+			directedC02(c)
+		case "C10":
+			directedC10(c)
 		default:
 			families["san"](c)
 		}
